@@ -110,11 +110,19 @@ type c09Obs struct {
 func (o c09Obs) coq() string {
 	var hs []string
 	for _, r := range o.Hist {
-		hs = append(hs, fmt.Sprintf("(R %d %d %s %d)", r.Gen, r.Parent, cqBool(r.Deleted), r.Body))
+		hs = append(hs, fmt.Sprintf("(R %d %d %s %d)", c09Nat(r.Gen), c09Nat(r.Parent), cqBool(r.Deleted), r.Body))
 	}
-	return fmt.Sprintf("(O %d %d %s %d %s %s %s %s %s %s %s %s %s %d %d %d %d %s %d %s)", o.St, o.Body, cqBool(o.HasSync), o.Cur, cqList(hs),
+	return fmt.Sprintf("(O %d %d %s %d %s %s %s %s %s %s %s %s %s %d %d %d %d %s %d %s)", o.St, o.Body, cqBool(o.HasSync), c09Nat(o.Cur), cqList(hs),
 		cqBool(o.FCas), cqBool(o.FCrc), cqBool(o.HasVV), cqBool(o.FCv), cqBool(o.FCvCas), cqBool(o.HasMou), cqBool(o.FMou), cqBool(o.FPcas),
 		o.VFull, o.VDoc, o.VXattr, o.Res, cqBool(o.SeqUp), o.Imports, cqBool(o.Fired))
+}
+
+// unparsable revision ids give negative generations: keep the Coq term well-formed (and mismatching)
+func c09Nat(v int) int {
+	if v < 0 {
+		return 99999
+	}
+	return v
 }
 
 type c09Snap struct {
@@ -542,7 +550,7 @@ func TestVerifC09(t *testing.T) {
 
 	// ---- (c) random: structured stream (mostly plain ops, feed indices near the end) and adversarial stream (races, stale
 	// and out-of-range events, repeated deliveries) ----
-	nStruct := vBudget(250, 2500)
+	nStruct := vBudget(500, 5000)
 	for i := 0; i < nStruct; i++ {
 		n := 4 + rnd.Intn(9)
 		var ops []c09Op
@@ -551,7 +559,7 @@ func TestVerifC09(t *testing.T) {
 		}
 		e.runCase("random", ops)
 	}
-	nAdv := vBudget(150, 1500)
+	nAdv := vBudget(400, 4000)
 	for i := 0; i < nAdv; i++ {
 		n := 3 + rnd.Intn(8)
 		var ops []c09Op
